@@ -91,3 +91,40 @@ func zzPerms(n int) [][]int {
 	}
 	return out
 }
+
+// ZZ_C20_everyCharacter: "sanitising it to a legal Prometheus name" character by character: a key
+// holding any one printable ASCII character between two letters (the solver picks the character,
+// one path per value) comes out with exactly the characters outside [a-zA-Z0-9_] replaced by '_',
+// paired with its own value; a second key differing only in that position keeps its own value too.
+func ZZ_C20_everyCharacter() {
+	ch := nondet.Int("character", 32, 126)
+	key := ""
+	for v := 32; v <= 126; v++ {
+		if ch == v {
+			key = "p" + string(rune(v)) + "q"
+		}
+	}
+	labels := map[string]string{key: "v-" + key}
+	if nondet.Bool("withNeighbour") && key != "p9q" {
+		labels["p9q"] = "nine"
+	}
+	outKeys, outVals := BuildInfoLabels(&metav1.ObjectMeta{Name: "foo", Namespace: "ns", Labels: labels})
+	nondet.Assert("C20.char.len", len(outKeys) == len(labels) && len(outVals) == len(labels))
+	if len(outKeys) != len(labels) || len(outVals) != len(labels) {
+		return
+	}
+	found := false
+	for i := range outKeys {
+		if outVals[i] == "v-"+key {
+			found = true
+			nondet.Assert("C20.char.sanitised-exactly", outKeys[i] == zzSanitize(key))
+		}
+		if outVals[i] == "nine" {
+			nondet.Assert("C20.char.neighbour-kept", outKeys[i] == "p9q")
+		}
+	}
+	nondet.Assert("C20.char.value-present", found)
+	nondet.Observe("keys", outKeys)
+	nondet.Reach("C20.char.digit-zero", key == "p0q" && found)
+	nondet.Reach("C20.char.replaced", key == "p/q" && found)
+}
